@@ -2653,3 +2653,35 @@ func lastPkgReadsOnly(r *core.Run, rule string) {
 	}
 	r.Check(why == "", rule, "ParamsPackage.LastPkg writes its own fields only", fn.Pos(), "no store through the predecessor", why)
 }
+
+// isEmptyLooksAtAll: R06.25. valueMask.isEmpty decides whether a capability type is written at all; it looks at every
+// slot of the mask (the last slot is the highest capability, not padding).
+func isEmptyLooksAtAll(r *core.Run, rule string) {
+	p := r.Prog
+	fn := p.Func("tds", "valueMask", "isEmpty")
+	fCaps := p.Field("tds", "valueMask", "capabilities")
+	why := ""
+	for _, b := range fn.Blocks {
+		for _, in := range b.Instrs {
+			if sl, ok := in.(*ssa.Slice); ok {
+				if f, _ := core.FieldLoad(core.Strip(sl.X)); f == fCaps {
+					why = "valueMask.isEmpty looks at " + core.Expr(sl) + " only, not at the whole mask: a type in which only a capability in the part left out is set counts as empty and its block is missing on the wire"
+				}
+			}
+		}
+	}
+	r.Check(why == "", rule, "valueMask.isEmpty looks at every slot", fn.Pos(), "the loop ranges over the whole capabilities slice", why)
+}
+
+// wrapperReturnsCall: the exported wrapper returns what the worker built, unchanged.
+func wrapperReturnsCall(r *core.Run, rule string, fn, worker *ssa.Function, consequence string) {
+	why := ""
+	for _, ret := range core.Returns(fn) {
+		v := core.Strip(core.RetVals(ret)[0])
+		c, ok := v.(*ssa.Call)
+		if !ok || c.Call.StaticCallee() != worker {
+			why = core.FuncName(fn) + " returns " + core.Expr(v) + ", not the result of " + worker.Name() + " as it is: " + consequence
+		}
+	}
+	r.Check(why == "", rule, core.FuncName(fn)+" returns the result of "+worker.Name()+" unchanged", fn.Pos(), "return "+worker.Name()+"(...)", why)
+}
